@@ -110,8 +110,9 @@ XSerialize(x, pick, form) ==
 FrameOk(f) ==
   /\ f.ver = 0 /\ f.scheme \in ValidSchemes /\ f.clen <= MaxC /\ f.ulen <= MaxU
   /\ f.clen = f.plen                                          \* else the decoder reads the wrong bytes
-  /\ \/ f.scheme = f.penc
-     \/ f.scheme \in {1, 2} /\ f.penc \in {1, 2}              \* lz4 frame read with / without regrouping: permuted bytes
+  \* an lz4 frame read with / without regrouping decodes, to permuted bytes.  (IF, not a disjunction: inside an
+  \* action TLC would branch on every frame for which both disjuncts hold)
+  /\ IF f.scheme = f.penc THEN TRUE ELSE f.scheme \in {1, 2} /\ f.penc \in {1, 2}
   /\ f.ulen = f.pulen
 DecodeCid(f) == IF f.scheme = f.penc THEN f.pcid ELSE Junk
 Decodes(o) == o.cut # "frame" /\ \A i \in 1..Len(o.frames) : FrameOk(o.frames[i])
